@@ -72,6 +72,22 @@ class C08(SCheck):
                 for (p, k) in srcs[:2]:
                     ops.append(gen.f_op("dst/%s.~%d~" % (p.split("/")[-1], r.choice([1, 4])), 5, pat=2))
         inv = gen.mk_inv(order, "dst", driver=driver, workers=workers, block_size=bs, r=True, n=True, **extra)
+        if idx % 9 == 4:
+            # -n together with -T: one source (file, link, node or directory) named onto an existing entry / an existing tree
+            p0, k0 = srcs[0]
+            tname = "dst/t%d" % idx
+            ck = r.choice(["file", "file", "symlink-live", "symlink-dangling", "absent"])
+            if k0 == "dir":
+                ops.append(gen.d_op(tname))
+                if r.random() < 0.7:
+                    ops.append(gen.f_op(tname + "/inner", 31, pat=6))
+            elif ck == "file":
+                ops.append(gen.f_op(tname, r.randrange(0, 4000), pat=r.randrange(1, 1 << 30), mode=0o640))
+            elif ck == "symlink-live":
+                ops.append(gen.l_op(tname, "$ROOT/elsewhere/by"))
+            elif ck == "symlink-dangling":
+                ops.append(gen.l_op(tname, "$ROOT/elsewhere/new-T"))
+            inv = gen.mk_inv([p0], tname, driver=driver, workers=workers, block_size=bs, r=True, n=True, T=True, **extra)
         return {"setup": ops, "steps": [{"inv": inv}], "max_events": 300000}
 
     def gen_plans(self, r, case, k):
